@@ -40,6 +40,8 @@ pub enum X {
     IntArr(Vec<i64>),
     /// raw source that is expected to fail evaluation in every data model (error injection)
     Bad(String),
+    /// opaque source text (documents that are only parsed / serialised, never executed)
+    Raw(String),
 }
 
 /// Executable content.
@@ -58,6 +60,61 @@ pub enum C {
     Log(X),
     /// `<script>` with a raw (failing) source
     Script(X),
+    /// full `<send>` with every attribute / child the reader knows
+    Send(Box<SendSpec>),
+    /// `<cancel sendid=.. | sendidexpr=..>`
+    Cancel { sendid: Option<String>, sendidexpr: Option<String> },
+    /// `<log label=.. expr=..>`
+    LogLabel { label: String, expr: X },
+    /// `<assign location=..>text</assign>`
+    AssignText { location: String, text: String },
+}
+
+#[derive(Clone, Debug, PartialEq, Default)]
+pub struct ParamSpec {
+    pub name: String,
+    pub expr: Option<String>,
+    pub location: Option<String>,
+}
+
+#[derive(Clone, Debug, PartialEq)]
+pub enum ContentSpec {
+    Expr(String),
+    Text(String),
+    /// `<content/>` without expr and children
+    Empty,
+}
+
+#[derive(Clone, Debug, PartialEq, Default)]
+pub struct SendSpec {
+    pub event: Option<String>,
+    pub eventexpr: Option<String>,
+    pub target: Option<String>,
+    pub targetexpr: Option<String>,
+    pub typ: Option<String>,
+    pub typeexpr: Option<String>,
+    pub id: Option<String>,
+    pub idlocation: Option<String>,
+    pub delay: Option<String>,
+    pub delayexpr: Option<String>,
+    pub namelist: Vec<String>,
+    pub params: Vec<ParamSpec>,
+    pub content: Option<ContentSpec>,
+}
+
+#[derive(Clone, Debug, PartialEq, Default)]
+pub struct InvokeSpec {
+    pub typ: Option<String>,
+    pub typeexpr: Option<String>,
+    pub src: Option<String>,
+    pub srcexpr: Option<String>,
+    pub id: Option<String>,
+    pub idlocation: Option<String>,
+    pub namelist: Vec<String>,
+    pub autoforward: Option<bool>,
+    pub params: Vec<ParamSpec>,
+    pub content: Option<ContentSpec>,
+    pub finalize: Option<Vec<C>>,
 }
 
 #[derive(Clone, Debug, PartialEq)]
@@ -111,6 +168,7 @@ pub struct State {
     pub onexit: Vec<Vec<C>>,
     pub data: Vec<DataDecl>,
     pub donedata: Option<DoneData>,
+    pub invokes: Vec<InvokeSpec>,
 }
 
 #[derive(Clone, Debug, PartialEq)]
@@ -124,9 +182,15 @@ pub struct Doc {
     pub states: Vec<State>,
 }
 
+impl Doc {
+    pub fn new(dm: DM, states: Vec<State>) -> Doc {
+        Doc { dm, late_binding: false, name: "gen".into(), initial: None, data: vec![], states }
+    }
+}
+
 impl State {
     pub fn new(id: &str, kind: Kind) -> State {
-        State { id: id.to_string(), kind, initial: Initial::Default, children: vec![], transitions: vec![], onentry: vec![], onexit: vec![], data: vec![], donedata: None }
+        State { id: id.to_string(), kind, initial: Initial::Default, children: vec![], transitions: vec![], onentry: vec![], onexit: vec![], data: vec![], donedata: None, invokes: vec![] }
     }
     pub fn is_history(&self) -> bool {
         matches!(self.kind, Kind::History { .. })
